@@ -207,7 +207,10 @@ def gen_ledger(rng, ntxn=10, with_queries=True, with_pad=True, start_year=2019, 
         elif r < 0.18:
             lines.append(f'{d} price EUR 1.{rng.randint(10, 30)} USD')
         elif r < 0.24:
-            lines.append(f'{d} note {rng.choice(accounts)} "{rng.choice(["called", "checked", "Assets:Cash"])}"')
+            nacc = rng.choice(accounts)
+            lines.append(f'{d} note {nacc} "{rng.choice(["called", "checked", "Assets:Cash"])}"')
+            if rng.random() < 0.4:
+                lines.append(f'{d} note {nacc} "second note of the day"')
         elif r < 0.30:
             lines.append(f'{d} event "{rng.choice(["location", "employer", "note"])}" "{rng.choice(["Paris", "NYC", "location"])}"')
         elif r < 0.34:
